@@ -1,0 +1,18 @@
+//go:build verif
+
+package keeper
+
+import (
+	sdk "github.com/cosmos/cosmos-sdk/types"
+)
+
+// Verification hook (build tag `verif` only): lets an external harness inject a fault at the point where a
+// packet is handed to its route (e.g. a panic inside the route), which no input can provoke on this code.
+// Nil by default; without the tag verifRouteHook is an empty function (verif_nohook.go).
+var VerifRouteHook func(ctx sdk.Context, tunnelID uint64)
+
+func verifRouteHook(ctx sdk.Context, tunnelID uint64) {
+	if VerifRouteHook != nil {
+		VerifRouteHook(ctx, tunnelID)
+	}
+}
